@@ -37,9 +37,10 @@ enum Attack {
     PartialCache,
     FromUnproven,
     HonestUnsolicited,
+    UnverifiedTail,
 }
 
-const ATTACKS: [Attack; 10] = [
+const ATTACKS: [Attack; 11] = [
     Attack::TamperFilter,
     Attack::SubstituteHashOnChain,
     Attack::SubstituteHashRandom,
@@ -50,6 +51,7 @@ const ATTACKS: [Attack; 10] = [
     Attack::PartialCache,
     Attack::FromUnproven,
     Attack::HonestUnsolicited,
+    Attack::UnverifiedTail,
 ];
 
 /// ids for byte strings (hashes, filters)
@@ -283,6 +285,9 @@ pub fn run(opts: &Options) -> Report {
         let n_blocks = r.range(40, 110);
         br.extend(&mut r, n_blocks, 1);
         let attack = r.pick(&ATTACKS).clone();
+        // what the chain looks like a few blocks later (the client has not heard of these blocks)
+        let mut br2 = br.fork_of(br.chain.tip_number(), 5);
+        br2.extend(&mut r, 8, 5);
         let rounds_before = *len;
         let replay = |extra: String| {
             vec![
@@ -404,7 +409,11 @@ pub fn run(opts: &Options) -> Report {
             let mut sent_filters: Vec<packed::Bytes> = Vec::new();
             let mut _sent_hashes: Vec<Byte32> = Vec::new();
             let mut note = String::new();
-            if let Some((mut filters, mut hashes)) = honest_filters(&br, start, r.range(1, 30)) {
+            let base = honest_filters(&br, start, r.range(1, 30)).or_else(|| {
+                // everything is filtered already: the tail attack needs no honest prefix
+                if attack == Attack::UnverifiedTail { Some((Vec::new(), Vec::new())) } else { None }
+            });
+            if let Some((mut filters, mut hashes)) = base {
                 let j = r.below(filters.len() as u64) as usize;
                 let other = r.range(1, chain.tip_number());
                 let mut from = p3;
@@ -477,6 +486,27 @@ pub fn run(opts: &Options) -> Report {
                     Attack::HonestUnsolicited => {
                         note = "honest batch nobody asked for".into();
                     }
+                    Attack::UnverifiedTail => {
+                        // the honest batch up to the tip the client knows, followed by quiet filters
+                        // for blocks whose filter hashes the client cannot know yet
+                        match honest_filters(&br, start, 4000) {
+                            Some((f0, h0)) => {
+                                filters = f0;
+                                hashes = h0;
+                            }
+                            None => {
+                                filters.clear();
+                                hashes.clear();
+                            }
+                        }
+                        let quiet = (1..=chain.tip_number()).find(|n| !br.facts.iter().any(|f| f.1 == *n)).unwrap_or(1);
+                        let first_new = chain.tip_number() + 1;
+                        for n in first_new..=br2.chain.tip_number() {
+                            filters.push(chain.filters[quiet as usize].clone());
+                            hashes.push(br2.chain.block(n).hash());
+                        }
+                        note = format!("honest filters {}..={} followed by quiet filters for the unannounced blocks {}..={}", start, chain.tip_number(), first_new, br2.chain.tip_number());
+                    }
                     Attack::PartialCache => {
                         // only inside a finalized interval whose hashes are not cached yet
                         let cached_number = cached_idx as u64 * interval;
@@ -547,7 +577,7 @@ pub fn run(opts: &Options) -> Report {
                 let accepted = (after.min_f.saturating_sub(before.min_f)) as usize;
                 for i in 0..accepted.min(sent_filters.len()) {
                     let n = claim_start + i as u64;
-                    if n > chain.tip_number() || sent_filters[i].as_slice() != chain.filters[n as usize].as_slice() {
+                    if n > br2.chain.tip_number() || sent_filters[i].as_slice() != br2.chain.filters[n as usize].as_slice() {
                         rep.violate(
                             &format!("C06|unauthentic-filter-accepted|{:?}", attack),
                             "the filtered height moved over a filter that is not the chain's filter of that block",
@@ -558,12 +588,12 @@ pub fn run(opts: &Options) -> Report {
                 }
                 for rec in after.records.iter().filter(|r| !before.records.iter().any(|b| b.0 == r.0 && b.2 == r.2)) {
                     for h in &rec.2 {
-                        let ok = chain.number_of_hash(h).map(|n| n >= rec.0 && n < rec.0 + rec.1 && br.facts.iter().any(|f| f.1 == n)).unwrap_or(false);
+                        let ok = br2.chain.number_of_hash(h).map(|n| n >= rec.0 && n < rec.0 + rec.1 && br2.facts.iter().any(|f| f.1 == n)).unwrap_or(false);
                         if !ok {
                             rep.violate(
                                 &format!("C06|wrong-block-recorded|{:?}", attack),
                                 "a block is recorded for download that is not the chain's block at the height of a matching filter",
-                                replay(format!("# {}: record ({}, {}) lists {} = block {:?}", note, rec.0, rec.1, short(h), chain.number_of_hash(h))),
+                                replay(format!("# {}: record ({}, {}) lists {} = block {:?}", note, rec.0, rec.1, short(h), br2.chain.number_of_hash(h))),
                             );
                         }
                     }
@@ -581,7 +611,7 @@ pub fn run(opts: &Options) -> Report {
             continue;
         }
         // ---- honest convergence (peer 3 is honest from now on, the chain keeps growing)
-        let mut grown = chain.fork(chain.tip_number(), 99);
+        let mut grown = br2.chain.fork(br2.chain.tip_number(), 99);
         let mut conv_abort = None;
         for _ in 0..8 {
             grown.append_simple(1);
@@ -597,7 +627,7 @@ pub fn run(opts: &Options) -> Report {
             }
             let quiet = node.i().peers.matched_blocks().read().unwrap().is_empty()
                 && node.i().storage.get_earliest_matched_blocks().is_none()
-                && node.i().storage.get_min_filtered_block_number() >= chain.tip_number();
+                && node.i().storage.get_min_filtered_block_number() >= br2.chain.tip_number();
             if quiet {
                 break;
             }
@@ -614,13 +644,13 @@ pub fn run(opts: &Options) -> Report {
         }
         let min_f = node.i().storage.get_min_filtered_block_number();
         let (facts, _cells) = index_dump(&node);
-        let truth: BTreeSet<Fact> = br.facts.iter().cloned().collect();
+        let truth: BTreeSet<Fact> = br2.facts.iter().cloned().collect();
         let missing: Vec<String> = truth.difference(&facts).take(4).map(|f| format!("script {} block {} tx {} cell {} output {}", f.0, f.1, short(&f.2), f.3, f.4)).collect();
-        if min_f < chain.tip_number() || node.i().storage.get_earliest_matched_blocks().is_some() {
+        if min_f < br2.chain.tip_number() || node.i().storage.get_earliest_matched_blocks().is_some() {
             rep.violate(
                 &format!("C06|stuck|{:?}", attack),
                 "after the attack the filter sync with honest peers never completes",
-                replay(format!("# min filtered {} tip {} earliest record {:?}", min_f, chain.tip_number(), node.i().storage.get_earliest_matched_blocks().map(|r| (r.0, r.1, r.2.len())))),
+                replay(format!("# min filtered {} tip {} earliest record {:?}", min_f, br2.chain.tip_number(), node.i().storage.get_earliest_matched_blocks().map(|r| (r.0, r.1, r.2.len())))),
             );
         } else if !missing.is_empty() {
             rep.violate(
